@@ -580,7 +580,7 @@ impl JSON {
                     }
 
 
-                    let is_number = char.is_numeric();
+                    let is_number = char.is_numeric() || char == '-';
                     if is_number {
                         // read until char is not number and decimal point, minus, exponent
 
